@@ -15,6 +15,8 @@
 #include <signal.h>
 #include <unistd.h>
 #include <errno.h>
+#include <stdarg.h>
+#include <complex.h>
 
 static DIRFILE *D = NULL;
 static char workdir[4096];
@@ -106,6 +108,8 @@ static unsigned long parse_flags(char **tok, int n) {
   }
   return f;
 }
+
+#include "gdh_meta.c"
 
 static void alarm_handler(int sig) {
   (void)sig;
@@ -324,6 +328,8 @@ int main(int argc, char **argv) {
       printf("getcarray %d e=%d d=", r, gd_error(D));
       if (r == 0) for (size_t i = 0; i < len; i++) { if (i) putchar(','); show_elem(ti, buf + i * esz); }
       free(buf); tail();
+    } else if (meta_op(nt, tok)) {
+      /* handled in gdh_meta.c */
     } else if (!strcmp(op, "rl")) {
       printf("rl"); tail();
     } else if (!strcmp(op, "validate") && nt >= 2) {
